@@ -28,10 +28,22 @@ def fetch_req(mt, srcs, diff=False):
     return ["fetch", enc(mt), [enc(s) for s in srcs], diff, ev, fm]
 
 
+def to_pval(x):
+    """PVal wire form of an extracted object"""
+    if isinstance(x, freephil.scope_extract):
+        return ["r", [[enc(k), to_pval(v)] for k, v in x.__dict__.items() if not (k.startswith("__") and k.endswith("__"))]]
+    if isinstance(x, freephil.common.scope_extract_list):
+        return ["m", [to_pval(v) for v in x]]
+    if isinstance(x, list) and not (x and all(isinstance(w, tokenizer.word) for w in x)):
+        return ["l", [to_pval(v) for v in x]]
+    return pval_j(x)
+
+
 def fetch_impl(m, ss, diff=False):
     def f():
         r, un = m.fetch(sources=ss, track_unused_definitions=True, diff=diff)
-        return [obj_j(r), [[enc(u.path), line_of(str(u))] for u in un]]
+        ex = None if diff else call_j(lambda: r.extract(), to_pval)
+        return [obj_j(r), [[enc(u.path), line_of(str(u))] for u in un], ex]
     return call_j(f)
 
 
